@@ -326,10 +326,18 @@ func (k *c19KeyClient) GetServerKeys(ctx context.Context, server spec.ServerName
 			k.note(c19Gid(ctx), string(server))
 		}
 		r, _ := k.w.direct(string(server))
+		if ctx.Err() != nil {
+			return ServerKeys{}, ctx.Err()
+		}
 		return r.keys, r.err
 	}
 	gid := c19Gid(ctx)
 	v := k.s.park(gid, "getkeys", fmt.Sprintf("g%02d/getkeys/%s", gid, server), string(server)).(c19KeyResp)
+	// like a real HTTP client, a request whose context has ended by the time the answer would
+	// arrive fails with the context's error (the callers of this check never cancel)
+	if ctx.Err() != nil {
+		return ServerKeys{}, ctx.Err()
+	}
 	return v.keys, v.err
 }
 
@@ -337,10 +345,16 @@ func (k *c19KeyClient) LookupServerKeys(ctx context.Context, server spec.ServerN
 	if k.s == nil || k.free {
 		c19Beat()
 		r := k.w.notary(string(server))
+		if ctx.Err() != nil {
+			return nil, ctx.Err()
+		}
 		return r.list, r.err
 	}
 	gid := c19Gid(ctx)
 	v := k.s.park(gid, "notary", fmt.Sprintf("g%02d/notary/%s", gid, server), string(server)).(c19KeyResp)
+	if ctx.Err() != nil {
+		return nil, ctx.Err()
+	}
 	return v.list, v.err
 }
 
